@@ -215,6 +215,8 @@ pub struct PE(pub u8);
 // One shared key for C02 (all key/by functions of a field express this key).
 pub fn k(v: &V) -> u8 { v.0 / 2 }
 pub fn by_cmp(a: &V, b: &V) -> Ordering { k(a).cmp(&k(b)) }
+/// like `by_pcmp`, but V(5) is incomparable with everything including itself (only used where `==` is defined through it too)
+pub fn by_pcmp_nan(a: &V, b: &V) -> Option<Ordering> { if a.0 == 5 || b.0 == 5 { None } else { Some(k(a).cmp(&k(b))) } }
 pub fn by_pcmp(a: &V, b: &V) -> Option<Ordering> { Some(k(a).cmp(&k(b))) }
 pub fn by_eq(a: &V, b: &V) -> bool { k(a) == k(b) }
 pub fn by_hash<H: Hasher>(a: &V, h: &mut H) { k(a).hash(h) }
@@ -381,6 +383,11 @@ impl From<u32> for Inh {
     fn from(x: u32) -> Inh { Inh(x) }
 }
 
+/// An unsized type that implements the standard traits and `Tr` (for `?Sized` instantiation probes).
+#[derive(Debug, PartialEq, Eq, PartialOrd, Ord, Hash)]
+pub struct YesU(pub [u8]);
+impl Tr for YesU { type Assoc = u8; }
+
 /// A lifetime-indexed marker every type has (for higher-ranked predicates `for<'b> Self: TagL<'b>`).
 pub trait TagL<'b> {}
 impl<'b, T: ?Sized> TagL<'b> for T {}
@@ -388,6 +395,21 @@ impl<'b, T: ?Sized> TagL<'b> for T {}
 /// Implemented by generated cases for chosen (type, argument) pairs only: `where T: TrG<Self>` then holds for `Self = X<T>`
 /// and for nothing else (in particular not for `&X<T>`).
 pub trait TrG<X: ?Sized> {}
+
+/// `Cnt(x)`: like `u8` for the eight standard traits, but every comparison it takes part in is traced
+/// (which fields a derived comparison looks at, and when it stops, becomes observable).
+#[derive(Clone, Debug, Default, Hash)]
+pub struct Cnt(pub u8);
+impl PartialEq for Cnt {
+    fn eq(&self, o: &Cnt) -> bool { trace(format!("eq {} {}", self.0, o.0)); self.0 == o.0 }
+}
+impl Eq for Cnt {}
+impl PartialOrd for Cnt {
+    fn partial_cmp(&self, o: &Cnt) -> Option<Ordering> { trace(format!("pcmp {} {}", self.0, o.0)); Some(self.0.cmp(&o.0)) }
+}
+impl Ord for Cnt {
+    fn cmp(&self, o: &Cnt) -> Ordering { trace(format!("cmp {} {}", self.0, o.0)); self.0.cmp(&o.0) }
+}
 
 /// `Sh(x)`: implements the eight standard traits like `u8` does, and in addition has *inherent* methods named like the
 /// trait methods that behave differently (and leave a trace).  Generated code that goes through the traits never reaches
@@ -651,6 +673,8 @@ macro_rules! probe_ops {
         impl<'a> std::ops::$Tr<&'a OnlyForm<1>> for OnlyForm<1> { type Output = OnlyForm<1>; fn $f(self, _: &'a OnlyForm<1>) -> OnlyForm<1> { OnlyForm } }
         impl<'a> std::ops::$Tr<OnlyForm<2>> for &'a OnlyForm<2> { type Output = OnlyForm<2>; fn $f(self, _: OnlyForm<2>) -> OnlyForm<2> { OnlyForm } }
         impl<'a, 'b> std::ops::$Tr<&'b OnlyForm<3>> for &'a OnlyForm<3> { type Output = OnlyForm<3>; fn $f(self, _: &'b OnlyForm<3>) -> OnlyForm<3> { OnlyForm } }
+        // 4: `&T op &T` with ONE lifetime for both operands (the usual hand-written spelling)
+        impl<'a> std::ops::$Tr<&'a OnlyForm<4>> for &'a OnlyForm<4> { type Output = OnlyForm<4>; fn $f(self, _: &'a OnlyForm<4>) -> OnlyForm<4> { OnlyForm } }
         impl std::ops::$TrA<OnlyForm<0>> for OnlyForm<0> { fn $fa(&mut self, _: OnlyForm<0>) {} }
         impl<'a> std::ops::$TrA<&'a OnlyForm<1>> for OnlyForm<1> { fn $fa(&mut self, _: &'a OnlyForm<1>) {} }
         impl<'l, const N: usize> std::ops::$Tr<Lt<'l, N>> for Lt<'l, N> { type Output = Lt<'l, N>; fn $f(self, _: Lt<'l, N>) -> Lt<'l, N> { self } }
